@@ -411,6 +411,70 @@ fn lookup_case(cx: &mut Cx, tera: &Tera, rng: &mut Rng) {
     cx.sample(|| json!({"lookup_map": mm.iter().map(|(k, v)| json!([k.tagged(), v])).collect::<Vec<_>>()}));
 }
 
+/// The same text reached through every way a string value comes into being (context string, owned map key handed back
+/// by a key/value loop or by keys/pairs, borrowed key, safe mark, concatenation, slice, case round trip, a capture), at
+/// every byte length around the inline/heap boundary of the string type: all of them must be `==`, order as equal, be
+/// found in arrays and maps, and form one class for unique.
+fn string_representations(cx: &mut Cx, rng: &mut Rng) {
+    let mut t = Tera::default();
+    t.autoescape_on(Vec::<&'static str>::new());
+    let src = "{% for k, v in m %}{% set cap %}{{ s }}{% endset %}{% set ways = [s, k, m | keys | first, (m | pairs | first)[0], s | safe, h ~ tl, s[:], s | upper | lower, cap, k ~ \"\", lit.k0] %}\
+{% for a in ways %}{% for b in ways %}{{ a == b }},{{ a <= b }},{{ a >= b }},{{ a != b }},{{ a < b }},{{ a in [b] }},{{ [a] == [b] }},{{ {\"x\": a} == {\"x\": b} }},{{ m[a] == 1 }},{{ a in m }},{{ [a, b] | unique | length }};{% endfor %}{% endfor %}{% endfor %}";
+    if let Err(e) = t.add_raw_template("w", src) {
+        cx.violation("C15/string-representation-template-rejected", format!("{e}"), json!({"template": src}));
+        return;
+    }
+    for len in 0..=48usize {
+        // lower-case ASCII (so that upper|lower is the identity), or the same with multi-byte characters mixed in
+        let multibyte = rng.chance(1, 3);
+        let mut text = String::new();
+        while text.len() < len {
+            let room = len - text.len();
+            if multibyte && room >= 2 && rng.chance(1, 3) {
+                text.push(*rng.pick(&['é', 'ö']));
+            } else {
+                text.push((b'a' + rng.below(26) as u8) as char);
+            }
+        }
+        if text.is_empty() && len > 0 {
+            continue;
+        }
+        let cut = text.char_indices().map(|(i, _)| i).nth(rng.below(text.chars().count().max(1))).unwrap_or(0);
+        let mut ctx = tera::Context::new();
+        let mut m = std::collections::HashMap::new();
+        m.insert(text.clone(), 1);
+        ctx.insert("m", &m);
+        ctx.insert("s", &text);
+        ctx.insert("h", &text[..cut]);
+        ctx.insert("tl", &text[cut..]);
+        let mut lit = tera::value::Map::new();
+        lit.insert("k0".into(), tera::Value::from(text.as_str()));
+        ctx.insert_value("lit", tera::Value::from(lit));
+        cx.eval();
+        cx.cell(format!("string-representations|len{len}|{}", if multibyte { "multibyte" } else { "ascii" }));
+        match guard(|| t.render("w", &ctx).map_err(|e| e.to_string())) {
+            Ok(Ok(out)) => {
+                cx.count("string_representation_pairs", out.matches(';').count() as u64);
+                let want = "true,true,true,false,false,true,true,true,true,true,1";
+                for (i, cellv) in out.split(';').filter(|c| !c.trim().is_empty()).enumerate() {
+                    if cellv.trim() != want {
+                        let names = ["context string", "owned key from a key/value loop", "keys | first", "pairs | first | [0]", "safe", "concatenation", "slice [:]", "upper | lower", "capture", "key ~ \"\"", "value of a map entry"];
+                        let (a, b) = (i / names.len(), i % names.len());
+                        cx.violation(
+                            "C15/equal-text-not-equal-across-representations",
+                            format!("{:?} ({} bytes) as `{}` vs `{}`: ==,<=,>=,!=,<,in [b],[a]==[b],{{x:a}}=={{x:b}},m[a]==1,a in m,unique length gave {}, expected {want}", text, text.len(), names.get(a).unwrap_or(&"?"), names.get(b).unwrap_or(&"?"), cellv.trim()),
+                            json!({"text": text, "bytes": text.len(), "template": src}),
+                        );
+                        break;
+                    }
+                }
+            }
+            Ok(Err(e)) => cx.violation("C15/string-representation-render-failed", format!("{:?}: {e}", text), json!({"text": text, "template": src})),
+            Err(p) => cx.violation(&format!("C15/panic/{}", panic_site(&p)), format!("{:?}: {p}", text), json!({"text": text, "template": src})),
+        }
+    }
+}
+
 pub fn run(cx: &mut Cx) {
     let mut tera = Tera::default();
     tera.add_raw_templates(vec![
@@ -462,6 +526,9 @@ pub fn run(cx: &mut Cx) {
             template_laws(cx, &tera, &pool, &mut rng, 200);
             let p2 = pool[..3].to_vec();
             cx.sample(|| json!({"random_pool_first_values": p2.iter().map(|v| v.tagged()).collect::<Vec<_>>()}));
+        } else if case % 4 == 2 {
+            cx.begin_case(case, "string-representations");
+            string_representations(cx, &mut rng);
         } else {
             cx.begin_case(case, "key-lookup");
             for _ in 0..12 {
